@@ -14,7 +14,7 @@ git diff -- src > $OUT/patch.diff
 [ -s $OUT/patch.diff ] || { echo "no source change in $W" > $OUT/confirm.log; exit 2; }
 cp tests/seed_demo.rs $OUT/seed_demo.rs
 {
-echo "== worktree $W @ $(git rev-parse --short HEAD); patch sha1 $(sha1sum < $OUT/patch.diff | cut -c1-12)"
+echo "== worktree $W @ $(git rev-parse --short HEAD); patch sha1 $(sha1sum < $OUT/patch.diff | cut -c1-12); extra cargo args: [$EXTRA]"
 echo "== [1] demo WITH the change (expected: fails)"
 timeout 900 cargo test --offline $EXTRA --test seed_demo 2>&1 | grep -E "^test |test result|panicked at" | head -20
 echo "demo_with_exit=${PIPESTATUS[0]}"
